@@ -384,17 +384,45 @@ def shown_overloads(func) -> List[Tuple[str, str]]:
 
 # ------------------------------------------------------------------ direct oracle (independent of the model)
 
-def _unquote(node: Optional[ast.expr]) -> Optional[ast.expr]:
-    """'string annotations shown unquoted': every string constant (outside Literal[...]) that holds one
-    expression is replaced by that expression, recursively; anything else is left alone."""
+# bare names that mean typing.Literal / typing.Annotated in the module being judged (Python's import rules);
+# `x.Literal` / `x.Annotated` count under any prefix
+_ENV: Dict[str, set] = {"literal": {"Literal"}, "annotated": {"Annotated"}}
+
+
+def set_env_from_source(src: Optional[str]) -> None:
+    lit, ann = {"Literal"}, {"Annotated"}
+    if src:
+        for st in ast.walk(ast.parse(src)):
+            if isinstance(st, ast.ImportFrom) and st.module in ("typing", "typing_extensions"):
+                for al in st.names:
+                    if al.name == "Literal":
+                        lit.add(al.asname or al.name)
+                    if al.name == "Annotated":
+                        ann.add(al.asname or al.name)
+    _ENV["literal"], _ENV["annotated"] = lit, ann
+
+
+def _unquote(node: Optional[ast.expr], strict: bool = True) -> Optional[ast.expr]:
+    """'string annotations shown unquoted': every string constant that is a forward reference and holds one expression
+    is replaced by that expression, recursively. Strings that are VALUES stay: the arguments of Literal[...] and the
+    metadata of Annotated[T, ...] (strict=False: only what is spelled `Literal` / `x.Literal` counts as a value context —
+    the reading pydoctor implements today)."""
     if node is None:
         return None
+
+    def is_ref(v: ast.AST, kind: str) -> bool:
+        names = _ENV[kind] if strict else {"Literal"} if kind == "literal" else set()
+        attr = "Literal" if kind == "literal" else "Annotated"
+        return (isinstance(v, ast.Name) and v.id in names) or \
+            (isinstance(v, ast.Attribute) and v.attr == attr and (strict or kind == "literal"))
 
     class T(ast.NodeTransformer):
         def visit_Subscript(self, n: ast.Subscript) -> ast.AST:
             v = self.visit(n.value)          # a quoted "Literal" / "typing.Literal" is a forward reference to it
-            if (isinstance(v, ast.Name) and v.id == "Literal") or (isinstance(v, ast.Attribute) and v.attr == "Literal"):
+            if is_ref(v, "literal"):
                 return ast.Subscript(v, n.slice, n.ctx)
+            if is_ref(v, "annotated") and isinstance(n.slice, ast.Tuple) and n.slice.elts:
+                return ast.Subscript(v, ast.Tuple([self.visit(n.slice.elts[0])] + list(n.slice.elts[1:]), ast.Load()), n.ctx)
             return ast.Subscript(v, self.visit(n.slice), n.ctx)
 
         def visit_Constant(self, n: ast.Constant) -> ast.AST:
@@ -441,9 +469,17 @@ def oracle(src_fn: ast.AST, displayed: str) -> Optional[Tuple[str, str]]:
     bargs = list(b.posonlyargs) + list(b.args) + ([b.vararg] if b.vararg else []) + list(b.kwonlyargs) + ([b.kwarg] if b.kwarg else [])
     for sa, ba in zip(sargs, bargs):
         if _dump(_unquote(sa.annotation)) != _dump(_unquote(ba.annotation)):
+            if _dump(_unquote(sa.annotation, False)) == _dump(_unquote(ba.annotation, False)):
+                return ("annotation:value-string-unquoted",
+                        f"annotation of {sa.arg}: {ast.unparse(sa.annotation)!r} displayed as {ast.unparse(ba.annotation)!r}: a string that is a "
+                        f"value (Literal argument through an import alias / Annotated metadata), not a forward reference, lost its quotes ({displayed!r})")
             return ("annotation", f"annotation of {sa.arg}: {_dump(sa.annotation)} displayed as {_dump(ba.annotation)} ({displayed!r})")
     sr, br = _unquote(src_fn.returns), _unquote(back.returns)
     if _dump(sr) != _dump(br) and not (br is None and _is_none(sr)):
+        if _dump(_unquote(src_fn.returns, False)) == _dump(_unquote(back.returns, False)):
+            return ("annotation:value-string-unquoted",
+                    f"return annotation {ast.unparse(src_fn.returns)!r} displayed as {ast.unparse(back.returns)!r}: a string that is a value "
+                    f"(Literal argument through an import alias / Annotated metadata) lost its quotes ({displayed!r})")
         return ("return-annotation", f"returns {_dump(src_fn.returns)} displayed as {_dump(back.returns)} ({displayed!r})")
     return None
 
@@ -1176,6 +1212,11 @@ def run_fallback(ctx: Ctx) -> None:
 # ------------------------------------------------------------------ deterministic corpus (runs first)
 
 CORPUS = [
+    ("seeded-C14-r3-1-equal-constants-in-one-module",
+     "def first(verbose=False, scale=1.0):\n    pass\ndef connect(host, retries=0, workers=1, strict=True, *, backoff=0.0, debug=False):\n    pass\n"
+     "class K:\n    def m(self, a=0, b=False, c=0.0, d=-0.0, e=0j, f=1, g=True, h=1.0): ...\n    def n(self, a=True, b=1, c='', d=b'', e='a', f=b'a', g=None, h=0): ...\n"),
+    ("finding-value-strings-unquoted",
+     "from typing import Literal as L, Annotated\nimport typing as t\ndef b(x: Annotated[int, 'meta'], y: L['int'], z: t.Annotated[int, 'unit']) -> L['r', 'w']: ...\n"),
     ("seeded-C14-1-aliased-overload",
      "import typing as t\nfrom typing import overload as _overload, Union\n\n@_overload\ndef parse(s: str, /, *, strict: bool = True) -> str: ...\n"
      "@_overload\ndef parse(s: bytes, /, encoding: str = 'utf-8', *rest: int, **kw: object) -> bytes: ...\ndef parse(s, *args, **kw):\n    'impl'\n\n"
@@ -1195,11 +1236,12 @@ CORPUS = [
 ]
 
 
-def check_module_by_oracle(ctx: Ctx, tag: str, src: str) -> int:
+def check_module_by_oracle(ctx: Ctx, tag: str, src: str, stream: str = "corpus") -> int:
     """every def of the module judged by the direct oracle only (free-form expressions, no model involved)"""
     from pydoctor import model
     tree = ast.parse(src)
     system = build_system(src)
+    set_env_from_source(src)
     n = 0
 
     def scope(body: List[ast.stmt], full: str, in_class: bool) -> None:
@@ -1218,8 +1260,8 @@ def check_module_by_oracle(ctx: Ctx, tag: str, src: str) -> int:
                 continue
             ovs = [d for d in defs if any(decorator_is_overload_in(tree, body if in_class else None, ast.unparse(dd)) for dd in d.decorator_list)]
             n += 1
-            ctx.case("corpus " + tag + " " + name, True, None)
-            ctx.count("stream:corpus")
+            ctx.case(stream + " " + tag + " " + name + " " + (src if stream != "corpus" else ""), True, None)
+            ctx.count("stream:" + stream)
             if ovs:
                 shown = shown_overloads(ob) if ob.overloads else []
                 if not ob.overloads:
@@ -1236,7 +1278,10 @@ def check_module_by_oracle(ctx: Ctx, tag: str, src: str) -> int:
                 v = oracle(defs[-1], t)
                 if v:
                     ctx.fail(v[0], payload, f"{tag}: {name}: " + v[1])
-    scope(tree.body, "m", False)
+    try:
+        scope(tree.body, "m", False)
+    finally:
+        set_env_from_source(None)
     return n
 
 
@@ -1264,6 +1309,55 @@ def run_corpus(ctx: Ctx) -> None:
     for tag, src in CORPUS:
         total += check_module_by_oracle(ctx, tag, src)
     ctx.extra["corpus_defs"] = total
+
+
+# ------------------------------------------------------------------ whole modules: state shared between signatures
+
+CONSTANTS = ["0", "False", "0.0", "-0.0", "0j", "1", "True", "1.0", "1e0", "0x1", "''", "b''", "'a'", "b'a'", "None", "2", "2.0",
+             "-1", "-1.0", "'0'", "'False'", "...", "255", "0xff"]
+
+
+def run_module_constants(ctx: Ctx, nrandom: int) -> None:
+    """several functions per module through the real builder, every signature rendered in source order, defaults drawn
+    from constants that compare equal but are different constants (0/False/0.0/-0.0/0j, 1/True/1.0, ''/b'' ...):
+    anything shared between the signatures of one module (caches keyed by value, shared nodes) shows here. Oracle only."""
+    rng = ctx.rng
+    sources: List[Tuple[str, str]] = []
+    for c1 in CONSTANTS:
+        for c2 in CONSTANTS:
+            sources.append(("pair-two-functions", "def f(a=%s): ...\ndef g(a=%s): ...\n" % (c1, c2)))
+            sources.append(("pair-one-function", "class K:\n    def m(self, a=%s, *, b=%s): ...\n" % (c1, c2)))
+    for _ in range(nrandom):
+        lines = []
+        in_class = False
+        for i in range(rng.randint(2, 5)):
+            params = []
+            npar = rng.randint(1, 5)
+            star = rng.randint(0, npar)
+            for j in range(npar):
+                if j == star and j > 0:
+                    params.append("*")
+                ann = rng.choice(["", "", ": int", ": 'a1'"])
+                params.append("p%d%s%s%s" % (j, ann, " = " if ann else "=", rng.choice(CONSTANTS)))
+            if rng.random() < 0.3 and not in_class:
+                lines.append("class K%d:" % i)
+                in_class = True
+            ind = "    " if in_class else ""
+            if in_class:
+                params.insert(0, "self")
+            lines.append("%sdef f%d(%s)%s: ..." % (ind, i, ", ".join(params), rng.choice(["", " -> None", " -> 'a2'"])))
+            if in_class and rng.random() < 0.5:
+                in_class = False
+        sources.append(("random-module", "\n".join(lines) + "\n"))
+    for tag, src in sources:
+        try:
+            ast.parse(src)
+        except SyntaxError:
+            ctx.count("module-constants:unparsable-generated")
+            continue
+        n0 = len(ctx.failures)
+        check_module_by_oracle(ctx, "module-constants:" + tag, src, stream="module-constants")
+        ctx.count("module-constants:" + tag)
 
 
 # ------------------------------------------------------------------ run
@@ -1348,6 +1442,7 @@ def run(ctx: Ctx) -> None:
     run_overloads(ctx, 440 if ctx.quick else 4400)
     run_unstring(ctx, 2, 800 if ctx.quick else 40000)
     run_decorators(ctx, 300 if ctx.quick else 6000)
+    run_module_constants(ctx, 300 if ctx.quick else 6000)
 
 
 # ------------------------------------------------------------------ replay
